@@ -203,8 +203,21 @@ def r1_coordinates(repo, report):
               expected="prefix: (_make_prefix, _make_prefix_match); else (_make_suffix, _make_suffix_match)", loc=repo.loc(init), cases=len(irows))
     ipa = repo.cls("IndexedPrefixAdapters").methods["__init__"]
     isa = repo.cls("IndexedSuffixAdapters").methods["__init__"]
-    ok = "AdapterIndex(adapters, prefix=True)" in src(ipa) and "AdapterIndex(adapters, prefix=False)" in src(isa)
-    report.ob("C08.R1", "IndexedPrefixAdapters / IndexedSuffixAdapters", ok, facts={}, expected="prefix=True / prefix=False", loc=repo.loc(ipa))
+    from ..repo import call_arguments
+
+    def index_flag(fn_):
+        cs_ = [x for x in ast.walk(fn_) if isinstance(x, ast.Call) and chain(x.func) == "AdapterIndex"]
+        if len(cs_) != 1:
+            return None
+        a_ = call_arguments(repo, cs_[0])
+        first = a_.get("adapters", a_.get(0))
+        return (src(first) if first is not None else None, src(a_["prefix"]) if "prefix" in a_ else None)
+
+    got = (index_flag(ipa), index_flag(isa))
+    p1 = params(ipa)[1] if len(params(ipa)) > 1 else None
+    p2 = params(isa)[1] if len(params(isa)) > 1 else None
+    ok = got == ((p1, "True"), (p2, "False"))
+    report.ob("C08.R1", "IndexedPrefixAdapters / IndexedSuffixAdapters", ok, facts={"AdapterIndex_arguments": [list(g) if g else None for g in got]}, expected="AdapterIndex(adapters, prefix=True) / AdapterIndex(adapters, prefix=False)", loc=repo.loc(ipa))
 
 
 def _index_roles(repo, fn0):
